@@ -348,7 +348,13 @@ def expected_bytes(dom, vectors, parsed):
                 break
         if ok:
             return out
-    return [py_decode(a_['raw'])[1] for a_ in parsed['arrays']]
+    out = []
+    for a_ in parsed['arrays']:
+        try:
+            out.append(py_decode(a_['raw'])[1])
+        except Exception:  # noqa  (not valid base64: the Coq decoder has to reject it as well; the oracle reports it)
+            out.append(b'')
+    return out
 
 
 # ----------------------------------------------------------------------------- WriteToVTI histories
